@@ -155,3 +155,51 @@ func CallLowB(a *Acc, k int) int { return a.lowB(k) }
 
 // Pkg is this package's import path.
 const Pkg = "verifh/targets/c06mixed"
+
+// Receivers of several sizes for mocks requested through a method value (Func(obj.Method)):
+// two words, a pointer, 328 bytes (copied by a helper call in the bound-method wrapper) and 2 KiB.
+type MVSmall struct{ A, B int }
+
+//go:noinline
+func (s MVSmall) Sum(x int) int {
+	if x > 1<<45 {
+		return x*3 - s.A
+	}
+	return s.A + s.B + x
+}
+
+type MVPtr struct{ A int }
+
+//go:noinline
+func (p *MVPtr) Get(x int) int {
+	if x > 1<<46 {
+		return x*5 - p.A
+	}
+	return p.A + x + 10
+}
+
+type MVBig struct {
+	Tag  int
+	Data [40]int64
+}
+
+//go:noinline
+func (b MVBig) Sum(x int) int {
+	if x > 1<<47 {
+		return x*7 - b.Tag
+	}
+	return b.Tag + int(b.Data[3]) + x + 20
+}
+
+type MVHuge struct {
+	Tag  int
+	Data [255]int64
+}
+
+//go:noinline
+func (h MVHuge) Sum(x int) int {
+	if x > 1<<48 {
+		return x*9 - h.Tag
+	}
+	return h.Tag + int(h.Data[200]) + x + 30
+}
